@@ -109,6 +109,89 @@ def model_step(st, act, fs, fmt):
     return L, P, C, ("killed-before-rename", None)
 
 
+def verdict(st, act, fs, rc, extra, L2, P2, exp, fmt):
+    """Compare the observed successor with the reference model; -> None or (clause, detail)"""
+    bad = None
+    if extra:
+        bad = ("stray-files", ",".join(extra))
+    elif act[0] == "run":
+        if rc != 0:
+            bad = ("run-exit", rc)
+        elif fs[0] != exp[1]:
+            bad = ("file-not-formatted", None)
+        elif fs[3] is not None:
+            bad = ("temp-file-left", None)
+        elif P2 != ANY and fs[1] != P2:
+            bad = ("backup-not-protected-text", None)
+        elif fs[2] != md5line(L2):
+            bad = ("md5-not-of-last-output", None)
+    elif act[0] == "kill":
+        if rc != 137:
+            bad = ("kill-did-not-kill", rc)
+        elif fs[0] not in (st[0], fmt[(act[1], st[0])]):
+            bad = ("file-torn", None)
+        elif fs[0] != st[0] and P2 != ANY and fs[1] != P2:
+            bad = ("backup-not-protected-text", None)
+        elif fs[0] == st[0] and fs[1] != st[1] and (st[0] == st[4] or st[0] == st[6]):
+            # the killed run rewrote the backup although the file held uncrustify's own output
+            bad = ("backup-not-protected-text", None)
+    elif act[0] == "user" and fs[1:4] != st[1:4]:
+        bad = ("harness", None)
+    return bad
+
+
+def length_sweep(ctx, pool, quick, tab):
+    """Every file length modulo the md5 block size (quick: one block, thorough: three blocks): the history
+    user(c_n); run(A); run(A); user(e_n); run(A) where e_n differs from uncrustify's output in its LAST byte-but-two only and has
+    the same length.  The digest code branches on the length (padding fits / does not fit into the last block), the protocol
+    depends on the digest telling own output from user text: the md5 file must be the md5 of the file after every run and
+    the same-length edit must reach the backup."""
+    base = b"int sweep_variable_with_a_long_name = 1;\n"
+    n_len = 64 if quick else 192
+    jobs, fmt = [], {}
+    cs = []
+    for n in range(n_len):
+        c = b"/*" + b"x" * n + b"*/\n" + base
+        r = run.unc(c, None, "C")
+        if not r.ok():
+            raise SystemExit("HARNESS-ERROR: reference formatting failed (sweep)")
+        out = r.out
+        e = out[:-3] + b"2;\n"
+        r2 = run.unc(e, None, "C")
+        if not r2.ok() or r2.out != e or len(e) != len(out) or e == out:
+            raise SystemExit("HARNESS-ERROR: sweep edit is not a same-length fixed point")
+        fmt[("A", c)] = out; fmt[("A", out)] = run.unc(out, None, "C").out; fmt[("A", e)] = e
+        cs.append((c, out, e))
+    residues = set()
+    transitions = 0
+    hist_actions = lambda c, e: [("run", "A"), ("run", "A"), ("user", e), ("run", "A"), ("run", "A")]
+    # the five steps of every history are run one after the other (each needs the state before it); histories run in parallel
+    states = {i: (cs[i][0], None, None, None, None, None, None) for i in range(len(cs))}
+    hists = {i: ["user(sweep-%d)" % i] for i in range(len(cs))}
+    dead = set()
+    for k in range(5):
+        batch = [(states[i], hist_actions(cs[i][0], cs[i][2])[k]) for i in sorted(states) if i not in dead]
+        idx = [i for i in sorted(states) if i not in dead]
+        for i, (st, act, fs, rc, trace, extra) in zip(idx, pool.imap(step, batch, chunksize=2)):
+            transitions += 1
+            L2, P2, C2, exp = model_step(st, act, fs, fmt)
+            bad = verdict(st, act, fs, rc, extra, L2, P2, exp, fmt)
+            hists[i].append(describe(act, tab) if act[0] != "user" else "user(same-length edit of the last statement)")
+            if act[0] == "run":
+                residues.add(len(fs[0]) % 64 if fs[0] is not None else -1)
+            if bad:
+                w = {"clause": bad[0], "action": act[0], "cfg": "A" if act[0] != "user" else "", "family": "length-sweep",
+                     "length_mod_64_class": "56..63" if (len(st[0]) % 64) >= 56 else "0..55"}
+                files = {"history.json": json.dumps(hists[i], indent=1), "file_before": st[0], "file_after": fs[0] or b"",
+                         "backup_after": fs[1] or b"", "md5_after": fs[2] or b"", "cfgA.cfg": CFG["A"]}
+                ctx.rep.violation(w, files, note="length sweep: comment padded by %d; failing step %d of the history" % (i, k + 1))
+                dead.add(i)
+                continue
+            states[i] = fs + (L2, P2, C2)
+    return {"length_sweep_histories": len(cs), "length_sweep_transitions": transitions,
+            "length_sweep_output_length_residues_mod_64": len(residues)}
+
+
 def md5_kind(st):
     m, file0, L, C = st[2], st[0], st[4], st[6]
     if m is None:
@@ -193,32 +276,7 @@ def check(ctx):
                     kills += 1
                 hist = seen[st][1] + [describe(act, tab)]
                 L2, P2, C2, exp = model_step(st, act, fs, fmt)
-                bad = None
-                if extra:
-                    bad = ("stray-files", ",".join(extra))
-                elif act[0] == "run":
-                    if rc != 0:
-                        bad = ("run-exit", rc)
-                    elif fs[0] != exp[1]:
-                        bad = ("file-not-formatted", None)
-                    elif fs[3] is not None:
-                        bad = ("temp-file-left", None)
-                    elif P2 != ANY and fs[1] != P2:
-                        bad = ("backup-not-protected-text", None)
-                    elif fs[2] != md5line(L2):
-                        bad = ("md5-not-of-last-output", None)
-                elif act[0] == "kill":
-                    if rc != 137:
-                        bad = ("kill-did-not-kill", rc)
-                    elif fs[0] not in (st[0], fmt[(act[1], st[0])]):
-                        bad = ("file-torn", None)
-                    elif fs[0] != st[0] and P2 != ANY and fs[1] != P2:
-                        bad = ("backup-not-protected-text", None)
-                    elif fs[0] == st[0] and fs[1] != st[1] and (st[0] == st[4] or st[0] == st[6]):
-                        # the killed run rewrote the backup although the file held uncrustify's own output
-                        bad = ("backup-not-protected-text", None)
-                elif act[0] == "user" and fs[1:4] != st[1:4]:
-                    bad = ("harness", None)
+                bad = verdict(st, act, fs, rc, extra, L2, P2, exp, fmt)
                 outcomes.add((act[0], bad[0] if bad else "ok"))
                 if bad:
                     w = {"clause": bad[0], "action": act[0], "cfg": act[1] if act[0] != "user" else "",
@@ -247,6 +305,8 @@ def check(ctx):
             frontier = nxt
             ctx.log("depth %d: states=%d transitions=%d (kills=%d) new=%d" % (depth, len(seen), transitions, kills, len(nxt)))
         closed = not frontier
+        sweep = length_sweep(ctx, pool, quick, tab)
+        transitions += sweep["length_sweep_transitions"]
         cov = {
             "states": len(seen), "transitions": transitions,
             "traces_validated_against_impl": transitions,
@@ -261,6 +321,7 @@ def check(ctx):
             "distinct_outcomes": sorted("%s:%s" % o for o in outcomes),
             "exhaustive": closed or depth >= max_depth,
         }
+        cov.update(sweep)
     return {"level": LEVEL, "coverage": cov,
             "assumptions": ["an uncrustify process observes nothing of the directory beyond the four files' bytes "
                             "(no --mtime, no clock): equal canonical states have equal futures",
